@@ -168,6 +168,93 @@ def reuse_pass(ctx: Ctx, cases, thorough: bool):
     return n
 
 
+def abstract_event(ev):
+    """recorded validate() call -> case of Claims.tla, or None when a value has no counterpart in the model"""
+    now, lee = ev.get("now"), ev.get("leeway")
+    if ev.get("cls") != "JWTClaimsRegistry" or not isinstance(now, int) or not isinstance(lee, int) or not isinstance(ev.get("claims"), dict):
+        return None
+    TIME = ("exp", "nbf", "iat")
+
+    def tick(x, rel):
+        t = 2 * (x - now) if rel else 2 * x
+        if t != int(t):
+            raise ValueError("not on the half-second grid")
+        t = int(t)
+        return max(-10 ** 8, min(10 ** 8, t))         # far past / far future keep their side of every boundary
+
+    def val(v, rel, top=True):
+        if v is None: return {"k": "null"}
+        if isinstance(v, bool): return {"k": "bool", "b": v}
+        if isinstance(v, (int, float)): return {"k": "num", "n": tick(v, rel)}
+        if isinstance(v, str): return {"k": "str", "s": v}
+        if isinstance(v, dict): return {"k": "obj"}
+        if isinstance(v, list) and top:
+            items = [val(x, rel, False) for x in v]
+            if any(i["k"] in ("list", "obj") for i in items): raise ValueError("nested")
+            return {"k": "list", "l": items}
+        raise ValueError("no counterpart")
+    try:
+        es = []
+        names = list(ev["claims"]) + [n for n in ev["options"] if n not in ev["claims"]]
+        for n in names:
+            rel = n in TIME
+            v = val(ev["claims"][n], rel) if n in ev["claims"] else {"k": "absent"}
+            if n in ev["options"]:
+                o = ev["options"][n]
+                if not isinstance(o, dict) or set(o) - {"essential", "allow_blank", "value", "values"}:
+                    return None
+                tri = lambda x: "absent" if x is None else ("true" if x else "false")
+                hv, hq = o.get("value") is not None, o.get("values") is not None
+                req = {"k": "none"}
+                if hv and hq: req = {"k": "both", "v": val(o["value"], rel), "q": [val(x, rel, False) for x in o["values"]]}
+                elif hv: req = {"k": "value", "v": val(o["value"], rel)}
+                elif hq: req = {"k": "values", "q": [val(x, rel, False) for x in o["values"]]}
+                opt = {"ess": tri(o.get("essential")), "req": req, "blank": tri(o.get("allow_blank"))}
+            else:
+                opt = {"ess": "none"}
+            es.append({"n": n, "v": v, "o": opt})
+        return {"lw": 2 * lee, "e": es}
+    except (ValueError, TypeError, KeyError):
+        return None
+
+
+def trace_claims(ctx: Ctx) -> int:
+    """B2: claims validations performed by the repository's own test-suite, judged by TLC with the declarative rule"""
+    import os, subprocess
+    from .common import REPO, VERIF
+    nd = ctx.scratch / "api.ndjson"
+    env = dict(os.environ, JOSERFC_VERIF="1", JOSERFC_VERIF_TRACE=str(nd), PYTHONPATH=f"{REPO / 'src'}:{VERIF}", PYTHONDONTWRITEBYTECODE="1")
+    subprocess.run(["/venv/bin/python", "-B", "-m", "pytest", "-q", "-p", "no:cacheprovider", "-p", "harness.verif_pytest_plugin", "tests/jwt"],
+                   cwd=str(REPO), env=env, capture_output=True, text=True, timeout=600)
+    f = ctx.scratch / "api.ndjson.claims"
+    if not f.exists():
+        raise MachineryError("tracer recorded no claims validation")
+    events = [json.loads(l) for l in f.read_text().splitlines() if l.strip()]
+    pairs = [(e, abstract_event(e)) for e in events]
+    pairs = [(e, c) for e, c in pairs if c is not None]
+    if len(pairs) < 10:
+        raise MachineryError(f"only {len(pairs)} of {len(events)} recorded validations could be projected onto the model")
+
+    def evaluate(cases, name):
+        fin, fout = ctx.scratch / f"{name}_in.json", ctx.scratch / f"{name}_out.json"
+        fin.write_text(json.dumps(cases))
+        ctx.tlc("ClaimsEval", env={"IN_FILE": str(fin), "OUT_FILE": str(fout)}, timeout=300)
+        return json.loads(fout.read_text())
+    allowed = evaluate([c for _, c in pairs], "claims_trace")
+    for (e, c), al in zip(pairs, allowed):
+        out = "ok" if e["outcome"] == "ok" else CLASS.get(e["outcome"], "other:" + e["outcome"])
+        if out not in al:
+            ctx.violation("claims:trace " + sig_of(c, out), {"event": e, "case": c, "allowed": al, "observed": out,
+                                                             "source": "repository test-suite under the tracer"})
+    # binding demonstration: an expired token recorded as accepted must be refused by the rule
+    demo = {"lw": 0, "e": [{"n": "exp", "v": {"k": "num", "n": -10}, "o": {"ess": "none"}}]}
+    if "ok" in evaluate([demo], "claims_demo")[0]:
+        raise MachineryError("binding demonstration failed: the rule accepts an expired token")
+    ctx.notes["claims_trace"] = {"recorded": len(events), "projected_and_judged": len(pairs), "source": "repository test-suite (tests/jwt)"}
+    ctx.traces += 1
+    return len(pairs)
+
+
 def conc_opts_at(case, E):
     return {e["n"]: conc_opt(e["o"], E, False) for e in case["e"] if e["o"]["ess"] != "none"}
 
@@ -195,6 +282,7 @@ def run(ctx: Ctx) -> None:
 
     ctx.evaluations = check_cases(ctx, cases, variants)
     ctx.evaluations += reuse_pass(ctx, cases, thorough)
+    ctx.evaluations += trace_claims(ctx)
     ctx.traces = len(cases)
     ctx.exhaustive = True
     ctx.rule = ("TLC enumerates every single-claim case (8 claim names x 27 JSON values incl. boundary ticks around now+-leeway x 109 "
